@@ -20,11 +20,11 @@
    C12_K1_witness_fixed keeps the old witness.                                                                *)
 From Coq Require Import List Arith Bool Permutation.
 From PV Require Import Base.Exn Model.ValidateSem Spec.ValidateSpec Proofs.ValidateDict Proofs.ValidateRef
-  Proofs.ValidateBind Proofs.ValidateGate Proofs.ValidateByName Proofs.ValidateSpecLink Gen.Validate.
+  Proofs.ValidateBind Proofs.ValidateGate Proofs.ValidateByName Proofs.ValidateSpecLink Proofs.ValidateStar Gen.Validate.
 Import ListNotations.
 
-Definition vrun {value : Type} (is_none : value -> bool) (veq : value -> value -> bool) :=
-  run value is_none veq Gen.Validate.cfg Gen.Validate.is_required_rule.
+Definition vrun {value : Type} (is_none : value -> bool) :=
+  run value is_none Gen.Validate.cfg Gen.Validate.is_required_rule.
 Definition vvalidate {value : Type} (is_none : value -> bool) :=
   param_validate value is_none Gen.Validate.cfg Gen.Validate.is_required_rule.
 
@@ -34,7 +34,7 @@ Theorem C12_cfg_is_reference :
 Proof. split; reflexivity. Qed.
 Print Assumptions C12_cfg_is_reference.
 
-Lemma vrun_ref : forall value is_none veq, @vrun value is_none veq = run value is_none veq reference_cfg reference_req_rule.
+Lemma vrun_ref : forall value is_none, @vrun value is_none = run value is_none reference_cfg reference_req_rule.
 Proof. intros. unfold vrun. destruct C12_cfg_is_reference as [-> ->]. reflexivity. Qed.
 Lemma vvalidate_ref : forall value is_none,
   @vvalidate value is_none = param_validate value is_none reference_cfg reference_req_rule.
@@ -61,10 +61,10 @@ Print Assumptions C12_chain_in_order.
    caller passed for that name; or, the caller passing none, the chain output on the value of its external source;
    or, the caller passing none, its Parameter default; or the signature default of that name; or - no Parameter
    declared, strict off (or the name is self) - the caller's value itself.                                     *)
-Theorem C12_gate_partial : forall value is_none veq sg env dc is_async c j b,
+Theorem C12_gate_partial : forall value is_none sg env dc is_async c j b,
   s_varpos sg = false ->
   self_guard value sg dc c = true ->
-  vrun is_none veq sg env dc is_async c = (j, FBody b) ->
+  vrun is_none sg env dc is_async c = (j, FBody b) ->
   forall n v, In (n, v) b -> origin value is_none sg dc c n v.
 Proof. intros. rewrite vrun_ref in *. eapply gate; eauto. Qed.
 Print Assumptions C12_gate_partial.
@@ -80,28 +80,28 @@ Print Assumptions C12_gate_partial.
                         runs and sees exactly b, name by name.
    In particular: a value the caller supplies for a declared name reaches the body as the chain output, never as
    the signature default; an implementation that preferred defaults or dropped supplied values would not do. *)
-Theorem C12_run_meets_spec : forall value is_none veq sg env dc c is_async,
+Theorem C12_run_meets_spec : forall value is_none sg env dc c is_async,
   s_varpos sg = false ->
   decl_wellformed value sg dc = true -> call_wellformed value sg c = true ->
   declared value dc self_name = false ->
   (forall p, In p (d_params dc) -> derives (p_exc p) ParameterExceptionC = true) ->
   snd (flask_m value env dc) = WOk tt ->
   match spec_outcome value is_none sg dc c with
-  | DRaise rs => exists e pn, snd (vrun is_none veq sg env dc is_async c) = FRaise e pn /\ raise_allowed e pn rs
-  | DPythonRejects => snd (vrun is_none veq sg env dc is_async c) = FRaise TypeErrorC None
+  | DRaise rs => exists e pn, snd (vrun is_none sg env dc is_async c) = FRaise e pn /\ raise_allowed e pn rs
+  | DPythonRejects => snd (vrun is_none sg env dc is_async c) = FRaise TypeErrorC None
   | DBody b => names_fit value sg dc c = true ->
-               exists b', snd (vrun is_none veq sg env dc is_async c) = FBody b' /\ deq b' b
+               exists b', snd (vrun is_none sg env dc is_async c) = FBody b' /\ deq b' b
   end.
 Proof. intros. rewrite vrun_ref in *. now apply run_meets_spec. Qed.
 Print Assumptions C12_run_meets_spec.
 
 (* the same for one supplied value, without the well-formedness of the rest: what the caller passes for n reaches
    the body through the chain of the Parameter declared for n, and unchanged if none is declared *)
-Theorem C12_supplied_reaches_body : forall value is_none veq sg env dc is_async c j b n w,
+Theorem C12_supplied_reaches_body : forall value is_none sg env dc is_async c j b n w,
   s_varpos sg = false ->
   d_ignore_input dc = false -> List.length (c_args c) <= List.length (pos_params value sg) ->
   NoDup (keys (named_assignment value sg c)) -> self_guard value sg dc c = true ->
-  vrun is_none veq sg env dc is_async c = (j, FBody b) -> In (n, w) (named_assignment value sg c) ->
+  vrun is_none sg env dc is_async c = (j, FBody b) -> In (n, w) (named_assignment value sg c) ->
   match lookup_param value dc n with
   | Some p => forall v, spec_param value is_none p w = VPass v ->
               (d_mode dc <> KWARGS_WITHOUT_NONE \/ is_none v = false) -> dget n b = Some v
@@ -131,14 +131,14 @@ Definition k1_call : call nat := {| c_args := []; c_kwargs := [(1, 1); (3, 2)] |
 
 Example C12_K1_witness_fixed :
   self_guard nat k1_sig k1_deco k1_call = true /\ names_fit nat k1_sig k1_deco k1_call = false /\
-  vrun nnone Nat.eqb k1_sig no_env k1_deco false k1_call = ([(1, 0, 1)], FRaise TypeErrorC None).
+  vrun nnone k1_sig no_env k1_deco false k1_call = ([(1, 0, 1)], FRaise TypeErrorC None).
 Proof. repeat split. Qed.
 
 (* outside self_guard (open finding C12-K3): @validate(strict=False) def g(a=1, **kw); g(self=5) runs the body with
    a=5 - the value passed under the undeclared name self is bound to the first parameter (names: self=0, a=1) *)
 Theorem C12_gate_self_refuted : exists sg env dc is_async c j b n v,
   self_guard nat sg dc c = false /\
-  vrun nnone Nat.eqb sg env dc is_async c = (j, FBody b) /\ In (n, v) b /\ ~ origin nat nnone sg dc c n v.
+  vrun nnone sg env dc is_async c = (j, FBody b) /\ In (n, v) b /\ ~ origin nat nnone sg dc c n v.
 Proof.
   exists {| s_params := [{| sp_name := 1; sp_kwonly := false; sp_default := Some 1 |}]; s_varkw := true; s_varpos := false |}, no_env,
     {| d_params := []; d_mode := KWARGS_WITH_NONE; d_strict := false; d_ignore_input := false |}, false,
@@ -158,7 +158,7 @@ Print Assumptions C12_gate_self_refuted.
    the body with a=3; the default never arrives under its own name *)
 Theorem C12_default_cascade_self_refuted : exists sg env dc is_async c j b p d,
   self_guard nat sg dc c = false /\ NoDup (map (@p_name nat) (d_params dc)) /\
-  vrun nnone Nat.eqb sg env dc is_async c = (j, FBody b) /\
+  vrun nnone sg env dc is_async c = (j, FBody b) /\
   In p (d_params dc) /\ (forall w, ~ caller_gives nat sg dc c (p_name p) w) /\ no_external nat p /\
   p_default p = Some d /\ d_mode dc <> KWARGS_WITHOUT_NONE /\ dget (p_name p) b <> Some d.
 Proof.
@@ -172,48 +172,73 @@ Proof.
 Qed.
 Print Assumptions C12_default_cascade_self_refuted.
 
-(* FUNCTIONS WITH *args (s_varpos sg = true; the model covers the zip branch of the positional loop).  C12_gate_partial and
-   C12_strict_partial carry s_varpos sg = false; for *args functions the full statements are FALSE on the current source
-   (open findings C12-K4, C12-K5):
-   - @validate(Parameter a / at most 5, Parameter b / at most 5, strict=True) on a function f whose only parameter is star-args: f(1, 2, 99) runs the body with
-     (1, 2): the third positional has no Parameter, yet no TooManyArguments; zip drops it silently;
-   - @validate(Parameter x, Parameter y) on g with parameter x followed by star-args: g(1, 1, 2) runs the body with x=1 and
-     the tuple (2,): the values for the tuple are found by filtering ALL positionals by == against the validated named ones, so the second positional (equal
-     to x) disappears and y validates the third one. *)
+(* FUNCTIONS WITH star-args (s_varpos sg = true; the model covers the zip branch of the positional loop).  Former findings
+   C12-K4 / C12-K5 (fixed by /repo 137d0c4 / 1908fef; then C12_strict_varargs_refuted / C12_gate_varargs_refuted): the
+   positionals collected by the star-args parameter are matched with the unused Parameters by position; one beyond the last
+   Parameter raises TooManyArguments under strict and is passed through otherwise.  The old witnesses: *)
 Definition va_sig (named : list name) : signature nat :=
   {| s_params := map (fun n => {| sp_name := n; sp_kwonly := false; sp_default := None |}) named; s_varkw := false; s_varpos := true |}.
+Definition va_deco (strict : bool) : deco nat :=
+  {| d_params := [mkparam 1 [at_most 5] true None; mkparam 2 [at_most 5] true None]; d_mode := ARGS; d_strict := strict;
+     d_ignore_input := false |}.
 
-Theorem C12_strict_varargs_refuted : exists sg env dc is_async c j b star,
-  s_varpos sg = true /\ d_strict dc = true /\ List.length (d_params dc) = 2 /\ c_args c = [1; 2; 99] /\ c_kwargs c = [] /\
-  vrun nnone Nat.eqb sg env dc is_async c = (j, FBodyStar b star) /\ star = [1; 2].
-Proof.
-  exists (va_sig []), no_env,
-    {| d_params := [mkparam 1 [at_most 5] true None; mkparam 2 [at_most 5] true None]; d_mode := ARGS; d_strict := true;
-       d_ignore_input := false |}, false, {| c_args := [1; 2; 99]; c_kwargs := [] |}, [(1, 0, 1); (2, 0, 2)], [], [1; 2].
-  repeat split.
-Qed.
-Print Assumptions C12_strict_varargs_refuted.
+(* f with only a star-args parameter, Parameters a, b: f(1, 2, 99) *)
+Example C12_K4_witness_fixed :
+  vrun nnone (va_sig []) no_env (va_deco true) false {| c_args := [1; 2; 99]; c_kwargs := [] |} = ([], FRaise TooManyArgumentsC None) /\
+  vrun nnone (va_sig []) no_env (va_deco false) false {| c_args := [1; 2; 99]; c_kwargs := [] |}
+    = ([(1, 0, 1); (2, 0, 2)], FBodyStar [] [1; 2; 99]).
+Proof. split; reflexivity. Qed.
 
-Theorem C12_gate_varargs_refuted : exists sg env dc is_async c j b star,
-  s_varpos sg = true /\ c_args c = [1; 1; 2] /\ c_kwargs c = [] /\
-  vrun nnone Nat.eqb sg env dc is_async c = (j, FBodyStar b star) /\ b = [(1, 1)] /\ star = [2] /\
-  (* the Parameter y (name 2) was fed with the third positional, the second one reached nobody *)
-  j = [(1, 0, 1); (2, 0, 2)].
-Proof.
-  exists (va_sig [1]), no_env,
-    {| d_params := [mkparam 1 [at_most 5] true None; mkparam 2 [at_most 5] true None]; d_mode := ARGS; d_strict := true;
-       d_ignore_input := false |}, false, {| c_args := [1; 1; 2]; c_kwargs := [] |}, [(1, 0, 1); (2, 0, 2)], [(1, 1)], [2].
-  repeat split.
-Qed.
-Print Assumptions C12_gate_varargs_refuted.
+(* g with parameter x followed by star-args, Parameters x, y: g(1, 1) and g(1, 1, 2) *)
+Example C12_K5_witness_fixed :
+  vrun nnone (va_sig [1]) no_env (va_deco true) false {| c_args := [1; 1]; c_kwargs := [] |}
+    = ([(1, 0, 1); (2, 0, 1)], FBodyStar [(1, 1)] [1]) /\
+  vrun nnone (va_sig [1]) no_env (va_deco true) false {| c_args := [1; 1; 2]; c_kwargs := [] |}
+    = ([(1, 0, 1)], FRaise TooManyArgumentsC None).
+Proof. split; reflexivity. Qed.
+
+(* THE SAME FOR FUNCTIONS WITH star-args IN THEIR PRINCIPAL USE (Spec.spec_star_domain: return_as=ARGS, a purely positional call
+   that passes every named parameter, no keyword-only parameters, no self, the Parameters of the named parameters declared
+   first and in signature order, the other Parameters standing for the positions of the tuple): the run ends exactly as
+   Spec.spec_star_outcome demands - named binding and tuple equal (the i-th surplus positional through the chain of the
+   i-th remaining Parameter, then the defaults of the Parameters without value, a positional beyond the last Parameter
+   unchanged when not strict), or one of the demanded exceptions and no body.
+   Still excluded (C12_gate_partial / C12_strict_partial say s_varpos sg = false): star-args functions OUTSIDE that use -
+   keyword arguments or KWARGS modes together with star-args, methods, keyword-only parameters, Parameters declared out of
+   order (there the arrival order of the values decides, pinned by test_return_as_args_advanced_different_order) and a
+   var-positional parameter not spelled `args`; the model covers all but the last and is compared with the
+   implementation on them (correspondence), but nothing is claimed. *)
+Theorem C12_run_meets_spec_star : forall value is_none sg env dc c is_async,
+  spec_star_domain value sg dc c = true ->
+  (forall p, In p (d_params dc) -> derives (p_exc p) ParameterExceptionC = true) ->
+  snd (flask_m value env dc) = WOk tt ->
+  match spec_star_outcome value is_none sg dc c with
+  | DSRaise rs => exists e pn, snd (vrun is_none sg env dc is_async c) = FRaise e pn /\ raise_allowed e pn rs
+  | DSPythonRejects => False
+  | DSBody b star => snd (vrun is_none sg env dc is_async c) = FBodyStar b star
+  end.
+Proof. intros. rewrite vrun_ref. now apply run_meets_spec_star. Qed.
+Print Assumptions C12_run_meets_spec_star.
+
+(* strict, in that use: a positional beyond the last Parameter keeps the body from running; TooManyArguments is demanded *)
+Theorem C12_strict_varargs : forall value is_none sg env dc c is_async,
+  spec_star_domain value sg dc c = true ->
+  (forall p, In p (d_params dc) -> derives (p_exc p) ParameterExceptionC = true) ->
+  snd (flask_m value env dc) = WOk tt ->
+  d_strict dc = true ->
+  List.length (star_params value sg dc) + List.length (positional_names value sg) < List.length (c_args c) ->
+  exists rs, spec_star_outcome value is_none sg dc c = DSRaise rs /\ In (TooManyArgumentsC, None) rs /\
+             exists e pn, snd (vrun is_none sg env dc is_async c) = FRaise e pn /\ raise_allowed e pn rs.
+Proof. intros. rewrite vrun_ref. now apply strict_star. Qed.
+Print Assumptions C12_strict_varargs.
 
 (* ANY REJECTION RAISES BEFORE THE BODY.  A value the caller passes for a declared Parameter that does not pass
    the chain (rejected at any position, or a foreign exception in a validator): the body does not run *)
-Theorem C12_rejection_no_body : forall value is_none veq sg env dc is_async c n w p,
+Theorem C12_rejection_no_body : forall value is_none sg env dc is_async c n w p,
   s_varpos sg = false ->
   caller_gives value sg dc c n w -> lookup_param value dc n = Some p ->
   (forall v, spec_param value is_none p w <> VPass v) ->
-  exists e pn, snd (vrun is_none veq sg env dc is_async c) = FRaise e pn.
+  exists e pn, snd (vrun is_none sg env dc is_async c) = FRaise e pn.
 Proof. intros. rewrite vrun_ref in *. eapply rejection_no_body; eauto. Qed.
 Print Assumptions C12_rejection_no_body.
 
@@ -222,13 +247,13 @@ Print Assumptions C12_rejection_no_body.
    exactly its exception leaves - class exception_type, attribute parameter_name = the name - the body does not
    run, and the validators called are those of the arguments in front plus the rejecting chain up to the
    rejecting validator: nothing behind the rejection is looked at *)
-Theorem C12_first_rejection_no_body : forall value is_none veq sg env dc is_async c pre x post p,
+Theorem C12_first_rejection_no_body : forall value is_none sg env dc is_async c pre x post p,
   s_varpos sg = false ->
   arrival value sg dc c = Some (pre ++ x :: post) ->
   Forall (fun y => exists v, snd (snd (titem value is_none dc y)) = WOk v) pre ->
   lookup_param value dc (fst (snd x)) = Some p ->
   spec_param value is_none p (snd (snd x)) = VReject ->
-  vrun is_none veq sg env dc is_async c =
+  vrun is_none sg env dc is_async c =
   (flat_map (fun y => fst (snd (titem value is_none dc y))) pre ++ spec_journal value is_none p (snd (snd x)),
    FRaise (p_exc p) (Some (fst (snd x)))).
 Proof. intros. rewrite vrun_ref in *. eapply first_rejection; eauto. Qed.
@@ -236,12 +261,12 @@ Print Assumptions C12_first_rejection_no_body.
 
 (* the same for ANY failing step (rejection, foreign exception of a validator or of the conversion, undeclared
    argument under strict): everything in front passed, the step of x raises (e, pn) - exactly that leaves *)
-Theorem C12_first_failure_wins : forall value is_none veq sg env dc is_async c pre x post e pn,
+Theorem C12_first_failure_wins : forall value is_none sg env dc is_async c pre x post e pn,
   s_varpos sg = false ->
   arrival value sg dc c = Some (pre ++ x :: post) ->
   Forall (fun y => exists v, snd (snd (titem value is_none dc y)) = WOk v) pre ->
   snd (snd (titem value is_none dc x)) = WRaise e pn ->
-  vrun is_none veq sg env dc is_async c =
+  vrun is_none sg env dc is_async c =
   (flat_map (fun y => fst (snd (titem value is_none dc y))) pre ++ fst (snd (titem value is_none dc x)), FRaise e pn).
 Proof. intros. rewrite vrun_ref in *. eapply first_failure_arrival; eauto. Qed.
 Print Assumptions C12_first_failure_wins.
@@ -251,14 +276,14 @@ Print Assumptions C12_first_failure_wins.
    u_m p = (C12_unused_step_outcome) the chain on the value of its external source if it has one (a raising source:
    that exception), else: required -> exception_type with the parameter name; Parameter default; signature
    default; ValidateException *)
-Theorem C12_first_failure_unused : forall value is_none veq sg env dc is_async c xs pre p post e pn,
+Theorem C12_first_failure_unused : forall value is_none sg env dc is_async c xs pre p post e pn,
   s_varpos sg = false ->
   arrival value sg dc c = Some xs ->
   Forall (fun y => exists v, snd (snd (titem value is_none dc y)) = WOk v) xs ->
   unused_params value dc (useds value dc (map snd xs)) = pre ++ p :: post ->
   Forall (fun q => exists v, snd (u_m value is_none sg q) = WOk v) pre ->
   snd (u_m value is_none sg p) = WRaise e pn ->
-  vrun is_none veq sg env dc is_async c =
+  vrun is_none sg env dc is_async c =
   (flat_map (fun y => fst (snd (titem value is_none dc y))) xs ++ flat_map (fun q => fst (u_m value is_none sg q)) pre
      ++ fst (u_m value is_none sg p), FRaise e pn).
 Proof. intros. rewrite vrun_ref in *. eapply first_failure_unused; eauto. Qed.
@@ -285,23 +310,23 @@ Print Assumptions C12_unused_step_outcome.
 
 (* an exception that carries a parameter name comes from the Parameter of that name: it rejected the value the
    caller / its external source gave, or it is required and got no value *)
-Theorem C12_exception_names_parameter : forall value is_none veq sg env dc is_async c e n,
+Theorem C12_exception_names_parameter : forall value is_none sg env dc is_async c e n,
   s_varpos sg = false ->
-  snd (vrun is_none veq sg env dc is_async c) = FRaise e (Some n) ->
+  snd (vrun is_none sg env dc is_async c) = FRaise e (Some n) ->
   exists p, In p (d_params dc) /\ p_name p = n /\ e = p_exc p /\ rejected_here value is_none sg dc c p.
 Proof. intros. rewrite vrun_ref in *. eapply raise_names_parameter; eauto. Qed.
 Print Assumptions C12_exception_names_parameter.
 
 (* STRICT.  An argument without declared Parameter (any keyword; any positional but self): the body does not run;
    if no declared Parameter rejects its value the exception is TooManyArguments *)
-Theorem C12_strict_partial : forall value is_none veq sg env dc is_async c x xs,
+Theorem C12_strict_partial : forall value is_none sg env dc is_async c x xs,
   s_varpos sg = false ->
   d_strict dc = true -> arrival value sg dc c = Some xs -> In x xs ->
   declared value dc (fst (snd x)) = false -> (fst x = false \/ fst (snd x) <> self_name) ->
-  (exists e pn, snd (vrun is_none veq sg env dc is_async c) = FRaise e pn) /\
+  (exists e pn, snd (vrun is_none sg env dc is_async c) = FRaise e pn) /\
   ((forall y p, In y xs -> lookup_param value dc (fst (snd y)) = Some p ->
                 exists v, spec_param value is_none p (snd (snd y)) = VPass v) ->
-   snd (vrun is_none veq sg env dc is_async c) = FRaise TooManyArgumentsC None).
+   snd (vrun is_none sg env dc is_async c) = FRaise TooManyArgumentsC None).
 Proof.
   intros. rewrite vrun_ref in *. split.
   - eapply strict_no_body; eassumption.
@@ -318,10 +343,10 @@ Theorem C12_required_none_missing : forall value is_none,
      vvalidate is_none p w = ([], WRaise (p_exc p) (Some (p_name p)))) /\
   (forall (p : param value) w, spec_required value p = false -> is_none w = true ->
      vvalidate is_none p w = ([], WOk w)) /\
-  (forall veq sg env dc is_async c p, s_varpos sg = false ->
+  (forall sg env dc is_async c p, s_varpos sg = false ->
      In p (d_params dc) -> (forall w, ~ caller_gives value sg dc c (p_name p) w) -> no_external value p ->
      (spec_required value p = true \/ (p_default p = None /\ sig_default value sg (p_name p) = None)) ->
-     exists e pn, snd (vrun is_none veq sg env dc is_async c) = FRaise e pn).
+     exists e pn, snd (vrun is_none sg env dc is_async c) = FRaise e pn).
 Proof.
   intros value is_none. rewrite vvalidate_ref. repeat split.
   - apply required_none_rejected.
@@ -333,11 +358,11 @@ Print Assumptions C12_required_none_missing.
 (* DEFAULT CASCADE.  A declared Parameter (names pairwise distinct) without value from caller and external source,
    body reached: it is not required, and the body sees the Parameter default if there is one (KWARGS_WITHOUT_NONE:
    unless that default is None), else the signature default - a third case does not reach the body *)
-Theorem C12_default_cascade : forall value is_none veq sg env dc is_async c j b p,
+Theorem C12_default_cascade : forall value is_none sg env dc is_async c j b p,
   s_varpos sg = false ->
   self_guard value sg dc c = true ->
   NoDup (map (@p_name value) (d_params dc)) ->
-  vrun is_none veq sg env dc is_async c = (j, FBody b) ->
+  vrun is_none sg env dc is_async c = (j, FBody b) ->
   In p (d_params dc) -> (forall w, ~ caller_gives value sg dc c (p_name p) w) -> no_external value p ->
   spec_required value p = false /\
   match p_default p with
@@ -356,7 +381,7 @@ Definition ex_deco (m : return_as) (strict : bool) : deco nat :=
 Example C12_gate_hypotheses_satisfiable :
   let c := {| c_args := [3]; c_kwargs := [(2, 4)] |} in
   self_guard nat ex_sig (ex_deco ARGS true) c = true /\
-  vrun nnone Nat.eqb ex_sig no_env (ex_deco ARGS true) false c =
+  vrun nnone ex_sig no_env (ex_deco ARGS true) false c =
     ([(2, 0, 4); (1, 0, 3); (1, 1, 3)], FBody [(1, 4); (2, 5); (3, 4)]).
 Proof. repeat split. Qed.
 
@@ -366,19 +391,19 @@ Example C12_first_rejection_hypotheses_satisfiable :
                             mkparam 3 [] false None];
                d_mode := ARGS; d_strict := true; d_ignore_input := false |} in
   arrival nat ex_sig dc c = Some ([(false, (3, 7))] ++ (true, (1, 3)) :: [(true, (2, 1))]) /\
-  vrun nnone Nat.eqb ex_sig no_env dc false c = ([(1, 0, 3); (1, 1, 4)], FRaise ParameterExceptionC (Some 1)).
+  vrun nnone ex_sig no_env dc false c = ([(1, 0, 3); (1, 1, 4)], FRaise ParameterExceptionC (Some 1)).
 Proof. split; reflexivity. Qed.
 
 Example C12_strict_hypotheses_satisfiable :
   let c := {| c_args := [3; 1]; c_kwargs := [(8, 7)] |} in
   arrival nat ex_sig (ex_deco ARGS true) c = Some [(false, (8, 7)); (true, (1, 3)); (true, (2, 1))] /\
   declared nat (ex_deco ARGS true) 8 = false /\
-  snd (vrun nnone Nat.eqb ex_sig no_env (ex_deco ARGS true) false c) = FRaise TooManyArgumentsC None.
+  snd (vrun nnone ex_sig no_env (ex_deco ARGS true) false c) = FRaise TooManyArgumentsC None.
 Proof. repeat split. Qed.
 
 Example C12_default_cascade_hypotheses_satisfiable :
   let c := {| c_args := [3; 1]; c_kwargs := [] |} in
-  vrun nnone Nat.eqb ex_sig no_env (ex_deco KWARGS_WITHOUT_NONE true) true c =
+  vrun nnone ex_sig no_env (ex_deco KWARGS_WITHOUT_NONE true) true c =
     ([(1, 0, 3); (1, 1, 3); (2, 0, 1)], FBody [(1, 4); (2, 2); (3, 4)]) /\
   NoDup (map (@p_name nat) (d_params (ex_deco KWARGS_WITHOUT_NONE true))).
 Proof. split; [reflexivity|]. repeat constructor; cbn; intuition discriminate. Qed.
@@ -390,7 +415,7 @@ Example C12_run_meets_spec_hypotheses_satisfiable :
   snd (flask_m nat no_env dc) = WOk tt /\ names_fit nat ex_sig dc c = true /\
   (* def f(a, b, c=9); f(3, 4, 6): the supplied 6 is demanded for c, not the signature default 9 *)
   spec_outcome nat nnone ex_sig dc c = DBody [(1, 4); (2, 5); (3, 6)] /\
-  snd (vrun nnone Nat.eqb ex_sig no_env dc false c) = FBody [(1, 4); (2, 5); (3, 6)] /\
+  snd (vrun nnone ex_sig no_env dc false c) = FBody [(1, 4); (2, 5); (3, 6)] /\
   spec_outcome nat nnone ex_sig dc {| c_args := [9]; c_kwargs := [(3, 1)] |}
     = DRaise [(ParameterExceptionC, Some 1); (ValidateExceptionC, None)].
 Proof. repeat split. Qed.
@@ -401,5 +426,15 @@ Example C12_first_failure_unused_hypotheses_satisfiable :
   let c := {| c_args := [3]; c_kwargs := [] |} in
   arrival nat ex_sig dc c = Some [(true, (1, 3))] /\
   unused_params nat dc (useds nat dc (map snd [(true, (1, 3))])) = [] ++ mkparam 2 [plus_one] true None :: [mkparam 3 [] false (Some 4)] /\
-  vrun nnone Nat.eqb ex_sig no_env dc false c = ([(1, 0, 3); (1, 1, 3)], FRaise ParameterExceptionC (Some 2)).
+  vrun nnone ex_sig no_env dc false c = ([(1, 0, 3); (1, 1, 3)], FRaise ParameterExceptionC (Some 2)).
+Proof. repeat split. Qed.
+
+Example C12_run_meets_spec_star_hypotheses_satisfiable :
+  let c := {| c_args := [1; 1; 2]; c_kwargs := [] |} in
+  let dc := {| d_params := [mkparam 1 [at_most 5] true None; mkparam 2 [plus_one] true None; mkparam 3 [] false (Some 7)];
+               d_mode := ARGS; d_strict := true; d_ignore_input := false |} in
+  spec_star_domain nat (va_sig [1]) dc c = true /\ snd (flask_m nat no_env dc) = WOk tt /\
+  spec_star_outcome nat nnone (va_sig [1]) dc c = DSBody [(1, 1)] [2; 2] /\
+  snd (vrun nnone (va_sig [1]) no_env dc false c) = FBodyStar [(1, 1)] [2; 2] /\
+  spec_star_outcome nat nnone (va_sig [1]) dc {| c_args := [1; 1; 2; 9]; c_kwargs := [] |} = DSRaise [(TooManyArgumentsC, None)].
 Proof. repeat split. Qed.
